@@ -165,6 +165,7 @@ func (l *listener) handle(conn net.Conn) {
 	var err error
 	defer func() {
 		l.wg.Done()
+		verifEv("ln.handle.ret", conn)
 		if !errors.Is(err, errHijacked) {
 			_ = conn.Close()
 		}
@@ -217,13 +218,16 @@ func (l *listener) pipeConnection(conn *Connection) error {
 		connectionStates = val.([]*tls.ConnectionState)
 	}
 	if len(connectionStates) > 0 {
+		verifEv("ln.pipe.send", conn)
 		l.connChan <- &tlsConnection{
 			Conn:      conn,
 			connState: connectionStates[len(connectionStates)-1],
 		}
 	} else {
+		verifEv("ln.pipe.send", conn)
 		l.connChan <- conn
 	}
+	verifEv("ln.pipe.sent", conn)
 	return errHijacked
 }
 
